@@ -124,7 +124,7 @@ m("closeargs-len", "C14", "_app.py", "if close_frame.data and len(close_frame.da
 m("close-in-open-crash", "C14", "_app.py", "                if not self.keep_running:\n                    # close() was called from on_open / on_reconnect\n                    teardown()\n                    return\n\n", "")
 m("sock-not-closed", "C14", "_app.py", "            if self.sock:\n                self.sock.close()\n            close_status_code", "            close_status_code")
 # ---- C15
-m("reconnect-2x", "C15", "_dispatcher.py", "            time.sleep(seconds)\n            reconnector(reconnecting=True)", "            time.sleep(seconds * 2)\n            reconnector(reconnecting=True)")
+m("reconnect-2x", "C15", "_dispatcher.py", "            time.sleep(seconds)\n            # close() may have", "            time.sleep(seconds * 2)\n            # close() may have")
 m("no-on-reconnect", "C15", "_app.py", "                if reconnecting and self.on_reconnect:", "                if False and self.on_reconnect:")
 m("old-sock-leak", "C15", "_app.py", "            if reconnecting and self.sock:\n                self.sock.shutdown()\n", "")
 m("reconnect-after-close", "C15", "_app.py", "                return teardown(frame)", "                return closed(frame)")
